@@ -42,6 +42,16 @@ T  Transactions: every connection has a transaction state in the model (Workers.
         (DRIFT-only items `obs` k = tx / idle).  Gen_Workers_boot3: three workers that all look the bootstrap page up
         before the first write, every order of the writes x every placement of every close (idle earlier writers).
         Replays close a context only where the schedule closes it.  Demo_Workers_idletxn(_locked), Demo_LockWait_idle.
+S  Side files per path / restore beside a live process: <db>-wal and <db>-shm are files of their own in the model (Workers.tla, sf:
+        generation of the file at each path, who has the index mapped); a first access that finds an index another live process has
+        mapped trusts it - without its log: "disk I/O error" (StaleIndex) -, a log of another generation is laid over the file
+        (JoinsOldLog); ideal: the restore removes both (NoStaleSideFile).  Scenarios ScnRestoreLive: the creating context wrote the
+        backup with backup_db(), went on storing pages and is STILL OPEN when the workers start (drv x bak), or writes it at some
+        moment while workers are open (bkd, action Backup; schedule step "backup" of process 0).  Gen_Workers_restore: workers start
+        while earlier ones are paused in the middle of their page work or idle, x every placement of the backup and of every close.
+        The unlink step of a restore reports which files it removed; Trace_Workers performs the model's step with the OBSERVED set
+        of side files left in place, so the consequences (who fails, for how long) are TLC's.  Demo_Workers_keepsshm(_stale),
+        Demo_Workers_keepswal, MC_Workers_keepsshm_closed.
 V  The (process, operation, result) trace actually performed is validated by TLC
         against Trace_Workers (operation-level semantics of the same module), for the
         replays and for a stress mode: 2..16 free-running workers with random start
@@ -1559,13 +1569,23 @@ def run(tier: str) -> int:
         "placement of every close_db_conn (a worker that has written stays open, idle, while the others write - or closes first), on a database without / "
         "with the bootstrap page; schedules in which the last writer meets two idle earlier writers are sampled first; with every operation the "
         "worker reports Connection.in_transaction of its connection (for a close: at the idle point before it), compared by TLC with the model's txn; "
+        "S: Gen_Workers_restore: a restore WHILE ANOTHER LIVE PROCESS HAS THE DATABASE OPEN - the creating context wrote the backup with backup_db(), went on "
+        "storing pages and is still open when the workers start, or it writes the backup (schedule step of process 0) at any moment while workers are open; "
+        "workers start in index order while the earlier ones are paused in the middle of their page work (before the bootstrap write / after its commit), idle "
+        "or closed; every placement of the backup and of every close_db_conn; one schedule per class (scenario, who had the replaced database open at the "
+        "restore, number of later first accesses beside such a process) first; the unlink step of a restore reports which of <db>, <db>-wal, <db>-shm it removed "
+        "and TLC replays the performed trace with the observed set of side files left in place; "
         "V: stress runs of 2..16 free workers (tight starts with contexts held open; staggered starts with contexts closing early), distinct by (n, scenario, outcome). Non-trivial = two workers' operations interleave."
     )
     o.assumptions = [
         "schedule points are the wrapped environment operations (Path.exists/unlink/rename/replace, sqlite3.connect, execute/executescript/commit); "
         "consecutive operations of one class (reads, unlinks, scripts) of a process form one step",
         "offline Lua: Module:ustring:ustring and Module:libraryUtil are pure-Lua stand-ins stored in the test database",
-        "every context ends with close_db_conn; the creating context (scenarios drv) exists only without a backup file",
+        "every context ends with close_db_conn; the creating context (scenarios drv) is present without a backup file, with the backup it wrote itself before "
+        "the workers start (bak), or writing it while workers are open (bkd) - then not while a worker is inside create_db (between its look at the backup "
+        "path and its first access)",
+        "side files: the model keeps <db>-wal / <db>-shm per path with the database generation they belong to; a process that has the replaced database open "
+        "has un-checkpointed frames in its log (true for a context that stored pages or committed the bootstrap page; the automatic checkpoint runs after 1000 pages)",
         "busy timeout of the library's connections left at the sqlite3 default (5 s)",
         "an idle context (page work over, not yet closed) may stay open longer than any busy timeout; a context inside a library call holds the write "
         "lock only for a short critical section (LockWait: up to 2 s)",
@@ -1659,8 +1679,15 @@ def _run(o, thorough, rng, gens, side, provcfg, jobs):
     o.extra["generated_schedules"]["Gen_Workers_restore: the replaced database was open in another process"] = sum(1 for c in cases if c["live"])
     n_before = len(gens)
     gens += pick_live_first(cases, 700 if thorough else 24, random.Random(common.seed() * 43 + 11))
-    o.extra["replayed_restore_live"] = sum(1 for c in gens[n_before:] if c["live"])
     del cases, r
+    if thorough:   # three workers: the restoring one and the later openers beside paused / idle earlier workers (random walks)
+        r = tlc("Gen_Workers", "Sim_Workers_restore.cfg", workers=1, timeout=900,
+                extra=["-simulate", "num=150", "-depth", "46", "-seed", str(common.seed() + 27)])
+        sim3 = list({json.dumps(c["sched"]): c for c in r.cases}.values())
+        o.extra["generated_schedules"]["Sim_Workers_restore(3 workers)"] = len(sim3)
+        gens += sim3
+        del r
+    o.extra["replayed_restore_live"] = sum(1 for c in gens[n_before:] if c["live"])
     # T: three workers race for the bootstrap write (all look the page up before the first write) x lifetimes:
     # every order of the writes, every placement of every close (a worker that has written stays open - idle - or not)
     r = gres["Gen_Workers_boot3"]
